@@ -25,6 +25,7 @@ def run(ctx):
         R.violation("ANCHOR", "missing|" + FN, "anchor function %s not found" % FN, kind="ANCHOR-MISSING")
         return
     eng = Engine(F)
+    eng.key_all = True
     args = eng.symbolic_args(b, names=["s", "size"])
     outs = eng.call_path(FN, args)
     size = Lin.sym("size")
@@ -153,6 +154,7 @@ def check_pred(ctx, eng, pred):
             R.violation("TAB", FN + "|pred|" + path, "scan predicate %s has no local body" % path, function=FN, kind="UNRECOGNISED-SHAPE")
             continue
         e2 = Engine(ctx.facts)
+        e2.key_all = True
         outs = e2.call_path(path, e2.symbolic_args(body, names=["c"]))
         good = len(outs) == 1 and isinstance(outs[0][1], Bool) and outs[0][1].cond == ("cmp", "Ne", Lin.sym("c"), Lin.const(0))
         R.instance("TAB", "predicate %s(c) = %s" % (path, outs[0][1].cond if outs else None))
